@@ -160,6 +160,9 @@ pub const NUMERIC_BOUNDARY: &[&str] = &[
     "1.00000000000000011102230246251565404236316680908203125", "1.00000000000000011102230246251565404236316680908203124",
     "1.00000000000000011102230246251565404236316680908203126", "123456789012345678901234567890", "0.000000000000000000001",
     "5e-324", "1e22", "1e23", "8.5e15", "179769313486231570000000000000000000000000000000000000000000000000000000000000000000000000000000000000000000000000000000000000000000000000000000000000000000000000000000000000000000000000000000000000000000000000000000000000000000000000000000000000000000000000000000000000000000000000",
+    "000000000000000000001", "0000000000000000000000042", "018446744073709551615", "0000000000000000000018446744073709551615",
+    "00000000000000000000018446744073709551616", "00000000000000000000.5", "0000000000000000000001e5", "000000000000000000000ffx",
+    "00000000000000000000000000000000000000001", "1e00000005", "2.5e-0000003", "1e10000000", "1e-00000000000000000001", "1E+0000000000308",
     "0x", "00x", "0e0", "0.0e-0", "1.e1", ".1e1", "1.5E+10", "1e+", "1e-", "1E", "1fx", "1Fx", "0AX", "9ax", "1ex", "1e5x", "1e5",
     "12ab", "1a", "0b", "0d", "1dx", "1e1e1", "1.2.3", "1..", "1.x", ".5x",
 ];
